@@ -43,8 +43,12 @@ enum Kind {
 	NestedUnderSpatial,
 	/// sounds on a spatial track built with sound_capacity(cap)
 	SoundOnSpatial,
+	/// probe sounds on a sub-track that is created at the beginning of the history (not adopted yet)
+	SoundOnFreshTrack,
+	/// child tracks of a sub-track that is created at the beginning of the history (not adopted yet)
+	NestedOnFreshTrack,
 }
-const KINDS: [Kind; 16] = [
+const KINDS: [Kind; 18] = [
 	Kind::ProbeSoundMain,
 	Kind::StaticSoundMain,
 	Kind::SoundSub,
@@ -61,11 +65,15 @@ const KINDS: [Kind; 16] = [
 	Kind::NestedChain,
 	Kind::NestedUnderSpatial,
 	Kind::SoundOnSpatial,
+	Kind::SoundOnFreshTrack,
+	Kind::NestedOnFreshTrack,
 ];
 const CAPS: [usize; 3] = [0, 1, 2];
 const LETTERS: [&str; 5] = ["create", "drop oldest handle", "drop newest handle", "finish oldest sound", "callback"];
 const NL: u64 = 5;
-const STALE_CASES: u64 = 7;
+const STALE_CASES: u64 = 7 + RECYCLE_KINDS.len() as u64;
+/// kinds taken through 12 create / drop / callback cycles at capacity 1 and 2 (more removals than any ring holds)
+const RECYCLE_KINDS: [Kind; 8] = [Kind::Clock, Kind::Tweener, Kind::Lfo, Kind::Listener, Kind::SendTrack, Kind::SubTrack, Kind::SpatialTrack, Kind::ProbeSoundMain];
 const E2_CASES: u64 = 6;
 const E2N_CASES: u64 = 4;
 
@@ -122,7 +130,7 @@ impl Check for C08 {
 		format!("{:?} capacity {}", k, c)
 	}
 	fn rule(&self) -> String {
-		"all histories of length <= depth over {create, drop oldest handle, drop newest handle, finish oldest sound, callback} x 16 resource kinds (incl. child tracks / sounds of a spatial track with non-default capacities, child tracks of a paused parent, and child+grandchild chains dropped together) x capacity {0,1,2}, judged by a counting model (pending / adopted / marked); plus 5 stale-id scenarios (clock, modulator, listener, send track, sub-track slot reuse). states = distinct model states (per-resource phase vectors); non-trivial = histories in which at least one creation succeeded and one removal happened".into()
+		"all histories of length <= depth over {create, drop oldest handle, drop newest handle, finish oldest sound, callback} x 18 resource kinds (incl. sounds / child tracks of a track that is itself not adopted yet, child tracks / sounds of a spatial track with non-default capacities, child tracks of a paused parent, and child+grandchild chains dropped together) x capacity {0,1,2}, judged by a counting model (pending / adopted / marked); plus 5 stale-id scenarios (clock, modulator, listener, send track, sub-track slot reuse), 2 orphaned-storage scenarios, and 12-cycle create/drop recycling of 8 kinds at capacity 1 and 2. states = distinct model states (per-resource phase vectors); non-trivial = histories in which at least one creation succeeded and one removal happened".into()
 	}
 	fn assumptions(&self) -> Vec<String> {
 		vec![
@@ -187,7 +195,7 @@ fn enumerate(kind: Kind, cap: usize, letters: &mut Vec<u8>, depth: usize, ctx: &
 }
 
 fn is_sound(k: Kind) -> bool {
-	matches!(k, Kind::ProbeSoundMain | Kind::StaticSoundMain | Kind::SoundSub | Kind::FallibleSoundMain | Kind::SoundOnSpatial)
+	matches!(k, Kind::ProbeSoundMain | Kind::StaticSoundMain | Kind::SoundSub | Kind::FallibleSoundMain | Kind::SoundOnSpatial | Kind::SoundOnFreshTrack)
 }
 
 fn hist(kind: Kind, cap: usize, letters: &[u8]) -> String {
@@ -241,7 +249,8 @@ fn run_history(kind: Kind, cap: usize, letters: &[u8], ctx: &mut Ctx) {
 	let mut m = rig::manager(sr, ibs, caps, main);
 	let parent = match kind {
 		Kind::SoundSub => Some(m.add_sub_track(TrackBuilder::new().sound_capacity(cap)).expect("parent track")),
-		Kind::NestedSubTrack | Kind::NestedChain => Some(m.add_sub_track(TrackBuilder::new().sub_track_capacity(cap)).expect("parent track")),
+		Kind::NestedSubTrack | Kind::NestedChain | Kind::NestedOnFreshTrack => Some(m.add_sub_track(TrackBuilder::new().sub_track_capacity(cap)).expect("parent track")),
+		Kind::SoundOnFreshTrack => Some(m.add_sub_track(TrackBuilder::new().sound_capacity(cap)).expect("parent track")),
 		Kind::NestedUnderPaused => {
 			let mut p = m.add_sub_track(TrackBuilder::new().sub_track_capacity(cap)).expect("parent track");
 			p.pause(instant());
@@ -269,7 +278,7 @@ fn run_history(kind: Kind, cap: usize, letters: &[u8], ctx: &mut Ctx) {
 	};
 	let mut buf = vec![0.0f32; 16];
 	// let the parent be adopted so that it is not part of the history
-	if r.parent.is_some() || r.listener.is_some() || r.sparent.is_some() {
+	if (r.parent.is_some() || r.listener.is_some() || r.sparent.is_some()) && !matches!(kind, Kind::SoundOnFreshTrack | Kind::NestedOnFreshTrack) {
 		let rep = rig::callback(&mut r.m, &mut buf, 4, 2);
 		if !rep.ok() {
 			ctx.fail(format!("callback monitor (setup): {:?} :: {:?}", rep.panic.clone().or(rep.bad_sample.clone()), kind), hist(kind, cap, letters));
@@ -333,7 +342,7 @@ fn run_history(kind: Kind, cap: usize, letters: &[u8], ctx: &mut Ctx) {
 				let pick = (0..model.len()).find(|i| model[*i].map(|m| !m.marked && !m.stop_requested).unwrap_or(false));
 				if let Some(i) = pick {
 					match kind {
-						Kind::ProbeSoundMain | Kind::FallibleSoundMain | Kind::SoundOnSpatial => {
+						Kind::ProbeSoundMain | Kind::FallibleSoundMain | Kind::SoundOnSpatial | Kind::SoundOnFreshTrack => {
 							if let Some(p) = &r.probes[i] {
 								p.finished.store(true, Ordering::SeqCst);
 							}
@@ -468,7 +477,16 @@ fn create(r: &mut Rig, kind: Kind, serial: usize) -> Created {
 			Ok(h) => Created::Ok(Box::new(h), None),
 			Err(_) => Created::Limit,
 		},
-		Kind::NestedSubTrack | Kind::NestedUnderPaused => match r.parent.as_mut().unwrap().add_sub_track(TrackBuilder::new()) {
+		Kind::SoundOnFreshTrack => {
+			let d = ProbeSoundData::new((0.1, 0.0), (0.1, 0.0));
+			let sh = d.shared.clone();
+			match r.parent.as_mut().unwrap().play(d) {
+				Ok(h) => Created::Ok(Box::new(h), Some(sh)),
+				Err(PlaySoundError::SoundLimitReached) => Created::Limit,
+				Err(_) => Created::IntoSoundError,
+			}
+		}
+		Kind::NestedSubTrack | Kind::NestedUnderPaused | Kind::NestedOnFreshTrack => match r.parent.as_mut().unwrap().add_sub_track(TrackBuilder::new()) {
 			Ok(h) => Created::Ok(Box::new(h), None),
 			Err(_) => Created::Limit,
 		},
@@ -529,7 +547,8 @@ fn reported_count(r: &mut Rig, kind: Kind) -> Option<usize> {
 		Kind::SoundSub => Some(r.parent.as_ref().unwrap().num_sounds()),
 		// the parent track of the SoundSub/NestedSubTrack scenarios lives in the manager's sub-track arena too
 		Kind::SubTrack | Kind::SpatialTrack => Some(r.m.num_sub_tracks()),
-		Kind::NestedSubTrack | Kind::NestedUnderPaused | Kind::NestedChain => Some(r.parent.as_ref().unwrap().num_sub_tracks()),
+		Kind::NestedSubTrack | Kind::NestedUnderPaused | Kind::NestedChain | Kind::NestedOnFreshTrack => Some(r.parent.as_ref().unwrap().num_sub_tracks()),
+		Kind::SoundOnFreshTrack => Some(r.parent.as_ref().unwrap().num_sounds()),
 		Kind::NestedUnderSpatial => Some(r.sparent.as_ref().unwrap().num_sub_tracks()),
 		Kind::SoundOnSpatial => Some(r.sparent.as_ref().unwrap().num_sounds()),
 		Kind::SendTrack => Some(r.m.num_send_tracks()),
@@ -542,7 +561,35 @@ fn reported_count(r: &mut Rig, kind: Kind) -> Option<usize> {
 // ---------------------------------------------------------------------------------------------
 // stale ids: an id of a removed resource never resolves to a newer resource that reuses its slot
 
+/// far more create / drop cycles than any hand-over ring holds: every cycle the slot comes back
+fn recycle(kind: Kind, ctx: &mut Ctx) {
+	for cap in [1usize, 2] {
+		ctx.evals += 1;
+		ctx.traces += 1;
+		let mut letters: Vec<u8> = vec![];
+		for _ in 0..12 {
+			for _ in 0..cap {
+				letters.push(0);
+			}
+			letters.push(4);
+			for _ in 0..cap {
+				letters.push(if is_sound(kind) { 3 } else { 1 });
+			}
+			letters.push(4);
+			letters.push(4);
+		}
+		let r = catch(|| run_history(kind, cap, &letters, ctx));
+		if let Err(p) = r {
+			ctx.fail(format!("panic: {} :: {:?}", p, kind), format!("12 cycles of (create x {}; callback; drop / finish x {}; callback; callback)", cap, cap));
+		}
+	}
+}
+
 fn stale_ids(which: u64, ctx: &mut Ctx) {
+	if which >= 7 {
+		recycle(RECYCLE_KINDS[(which - 7) as usize], ctx);
+		return;
+	}
 	ctx.evals += 1;
 	ctx.traces += 1;
 	let sr = 8;
@@ -978,6 +1025,7 @@ fn e2_create_vs_remove(tier: Tier, which: u64, ctx: &mut Ctx) {
 		}
 	};
 	let stats = sched::explore(tier.pick(Some(2), Some(3)), 3_000_000, &mut body, &mut judge);
+	sched::report(ctx, &stats);
 	if let Some(e) = stats.error {
 		ctx.fail(format!("MACHINERY: scheduler error: {}", e), "");
 	}
@@ -1155,6 +1203,7 @@ fn e2_nested(tier: Tier, which: u64, ctx: &mut Ctx) {
 		}
 	};
 	let stats = sched::explore(tier.pick(Some(2), Some(3)), 3_000_000, &mut body, &mut judge);
+	sched::report(ctx, &stats);
 	if let Some(e) = stats.error {
 		ctx.fail(format!("MACHINERY: scheduler error: {}", e), "");
 	}
